@@ -32,7 +32,7 @@ impl Property for Prop {
         "C15"
     }
     fn rule(&self) -> &'static str {
-        "exhaustive: every history of the given depth (quick 4, thorough 5) over a 27-operation alphabet: encap succeeding / failing (buffer too small) and encap_ext succeeding for labels {A6, B6, C3, D3(zero 3-byte), broadcast, explicit re-use}, fragmenting encap for A6 and C3, reset, disable, enable, enable_max(0/1/2/255); key = first two operations. random: seeded histories of 300..3000 operations with max-consecutive N in 1..=255 (saturation at 255 exercised by runs of 600 identical labels). The trace automaton reads the label-type bits of every emitted start/complete packet. A history is non-trivial when at least one re-use substitution was observed in it; fingerprint = hash of the operation sequence."
+        "exhaustive: every history of the given depth (quick 4, thorough 5) over a 27-operation alphabet: encap succeeding / failing (buffer too small) and encap_ext succeeding for labels {A6, B6, C3, D3(zero 3-byte), broadcast, explicit re-use}, fragmenting encap for A6 and C3, reset, disable, enable, enable_max(0/1/2/255); key = first two operations. random: seeded histories of 300..3000 operations with max-consecutive N in 1..=255 (saturation at 255 exercised by runs of 600 identical labels). The trace automaton reads the label-type bits of every emitted start/complete packet; a run of substituted packets is ended only by an emitted packet carrying a full or broadcast label (not by configuration calls, not by explicit re-use labels, which are not counted either). A history is non-trivial when at least one re-use substitution was observed in it; fingerprint = hash of the operation sequence."
     }
     fn gens(&self, cx: &Cx) -> Vec<Gen> {
         let a = alphabet_c15().len() as u64;
@@ -75,12 +75,16 @@ impl Property for Prop {
                 let sticky = rng.below(6) as u8;
                 for _ in 0..n {
                     // long runs of one label exercise the max-consecutive counter
-                    if rng.chance(2, 3) {
+                    if rng.chance(1, 12) {
+                        // explicit re-use label passed by the caller in the middle of a run
+                        h.push(Op::Enc { label: 5, outcome: Outcome::Fits, ext: rng.chance(1, 8) });
+                    } else if rng.chance(2, 3) {
                         h.push(Op::Enc { label: sticky, outcome: if rng.chance(1, 12) { Outcome::TooSmall } else { Outcome::Fits }, ext: rng.chance(1, 8) });
                     } else {
                         let mut op = random_op(&mut rng, false);
                         if let Op::EnableMax(_) = op {
-                            op = Op::EnableMax(1 + rng.below(255) as u8);
+                            // small maxima half of the time: runs are then cut inside the sticky stretches
+                            op = Op::EnableMax(if rng.chance(1, 2) { 1 + rng.below(4) as u8 } else { 1 + rng.below(255) as u8 });
                         }
                         h.push(op);
                     }
